@@ -1,7 +1,11 @@
 (** * C04 — Every non-drawing character appears exactly once, as text, in its own cell.
     Statements only; proofs in Theory/TextCells.v and Theory/MergeTheory.v. *)
 Require Import SB.Model.Base SB.Model.Unicode SB.Model.Geom SB.Model.Fragment SB.Model.Merge SB.Model.Property SB.Model.FragBuf
-  SB.Theory.MergeTheory SB.Theory.TextCells.
+  SB.Theory.MergeTheory SB.Theory.TextCells SB.Model.Endorse SB.Model.Text SB.Model.Svg SB.Model.Lib SB.Theory.GridSweep SB.Theory.TextSweep.
+From Coq Require Import QArith String.
+#[local] Open Scope string_scope.
+#[local] Open Scope list_scope.
+#[local] Open Scope Z_scope.
 From Coq Require Import Permutation.
 
 (** [text_cells t]: the grid cells a text occupies, character by character — a character takes
@@ -38,9 +42,35 @@ Theorem C04_additive_measures_survive_the_loop :
     forall l r, merge_recursive merge l = Ok r -> Permutation (flat_map mu r) (flat_map mu l).
 Proof. exact @merge_recursive_additive. Qed.
 
-(** Grouping, endorsement and the enclosure pass only move fragments around (tags consumed as
-    classes are the stated exception, C16); that step and the anchoring of the emitted text
-    element are decided by the correspondence and the oracle of this check. *)
+(** The text element of a text fragment is anchored strictly inside the cell of its first character: at a quarter of
+    the cell width and three quarters of its height, at every scale; its character data is the escaped content. *)
+Theorem C04_text_is_anchored_inside_its_first_cell :
+  forall (s : Q) (t : celltext),
+    exists ax ay, fragment_node s (FCellText t) = Elem (zs "text") [SB.Model.Lib.num "x" (SB.Model.Lib.sc s ax); SB.Model.Lib.num "y" (SB.Model.Lib.sc s ay)] [TextLeaf (escape_html_text (ctcontent t))]
+      /\ cx (ctstart t) * 40 < ax < (cx (ctstart t) + 1) * 40 /\ cy (ctstart t) * 80 < ay < (cy (ctstart t) + 1) * 80.
+Proof.
+  intros s [[x y] c]. exists (x * 40 + 10), (y * 80 + 60). split; [|cbn; lia].
+  cbn [fragment_node ctstart ctcontent]. unfold cell_q, cell_abs, grid. cbn [px py cx cy]. repeat f_equal; lia.
+Qed.
+
+(** From the input text to the text fragments, through the whole recognition (grouping, tables, merging, contact groups,
+    endorsement): for EVERY input of one row of four characters, two rows of two over {blank, a, b, a double-width CJK
+    character, '-'} and two rows of three over {blank, a, CJK}, the (cell, character) pairs shown by all text fragments
+    that come out are exactly the label characters of the input at their display columns, each exactly once.  Longer
+    inputs: the merge theorems above plus the correspondence and the oracle of this check; the enclosure pass only moves
+    fragments around (tags consumed as classes are the stated exception, C16). *)
+Theorem C04_short_inputs_shown_exactly_once :
+  forall rows, in_shape TEXT5 4 1 rows \/ in_shape TEXT5 2 2 rows \/ in_shape TEXT3 3 2 rows -> shown_exactly_once rows.
+Proof. exact short_texts_shown_exactly_once. Qed.
+Check C04_short_inputs_shown_exactly_once :
+  forall rows, in_shape TEXT5 4 1 rows \/ in_shape TEXT5 2 2 rows \/ in_shape TEXT3 3 2 rows ->
+  exists cb acc groups, cellbuffer_from (join_rows rows) = Ok cb /\ endorse_cells (cb_cells cb) = Ok (acc, groups)
+    /\ let got := flat_map frag_text_cells (map fs_frag acc ++ flat_map (map fs_frag) groups) in
+       List.length got = List.length (expected_text rows)
+       /\ (forall e, In e (expected_text rows) -> count_in e got = 1%nat /\ count_in e (expected_text rows) = 1%nat).
+Example C04_sweep_nonvacuous : expected_text [[CJK; 97; 45; 98]] = [(C 0 0, CJK); (C 2 0, 97); (C 4 0, 98)].
+Proof. vm_compute. reflexivity. Qed.
+
 Example C04_nonvacuous :
   text_cells (CellText (C 3 1) [233; 19968; 98]) = [(C 3 1, 233); (C 4 1, 19968); (C 6 1, 98)].
 Proof. vm_compute. reflexivity. Qed.
